@@ -14,7 +14,7 @@ sys.path.insert(0, os.path.join(vf.VERIF, "lib"))
 import c08gen as G  # noqa: E402
 
 META = {
-    "text": "53 Coq theorems (no axioms) over a literal model of dpos libStatus/Status, the chain service's add-block/reorg call sequence (blocks failing at execution or refused by IsBlockValid; crash inside a reorg + marker recovery) and the BP election, for all producer counts and delivery histories with restarts anywhere. FULL: LIB never decreases; a block <= LIB or a reorg forking below it changes nothing; main-chain blocks <= a reported LIB stay forever; LIB, proposals, confirms list on the main chain (confirms list also after any abandoned reorg: Update uses the hash linkage); a proposal needs 2n/3+1 confirming main-chain blocks; two quorums share a correct producer (f < n/3); restart restores the LIB exactly; status saved with the tip = running one; recovery redoes the reorg; ForceResetHeight; confirmsRequired follows the producer count. PARTIAL: LIB on main chain with failing blocks if no reorg is abandoned midway; producer set a function of the chain if BPCOUNT is constant; agreement if j's chain holds i's LIB block. REFUTED, known, reproduced every run: agreement (F14/b/c, C08:agreement-confirms-unvalidated, C08:agreement-equivocation-partition); restored proposals = online (F45, C08:restart-status-differs-from-online); producer set after a BPCOUNT change (F34, C08:bp-snapshot-bpcount-from-memory); LIB on main chain after an abandoned reorg (F39, C08:lib-off-main-chain-after-failed-reorg). Tie every run: engines on the real dpos.Status, NewStatus+bp.Snapshots+GetRankers and ChainService (recording, persisting stub); every step's outcome, LIB, proposals, confirms list, main chain, producer set, call sequence, saved status hashed and compared with the model by vm_compute; each clause also a direct predicate on the implementation; multi-node disagreement search.",
+    "text": "55 Coq theorems (no axioms) over a literal model of dpos libStatus/Status, the chain service's add-block/reorg call sequence (blocks failing at execution or refused by IsBlockValid; crash inside a reorg + marker recovery) and the BP election, for all producer counts and delivery histories with restarts anywhere. FULL: LIB never decreases; a block <= LIB or a reorg forking below it changes nothing; main-chain blocks <= a reported LIB stay forever; LIB, proposals, confirms list on the main chain (confirms list also after any abandoned reorg: Update uses the hash linkage); a proposal needs 2n/3+1 confirming main-chain blocks; two quorums share a correct producer (f < n/3); restart restores the LIB exactly; status saved with the tip = running one; recovery redoes the reorg; ForceResetHeight h keeps the LIB (and its veto) iff LIB <= h; confirmsRequired follows the producer count. PARTIAL: LIB on main chain with failing blocks if no reorg is abandoned midway; producer set a function of the chain if BPCOUNT is constant; agreement if j's chain holds i's LIB block. REFUTED, known, reproduced every run: agreement (F14/b/c, C08:agreement-confirms-unvalidated, C08:agreement-equivocation-partition); restored proposals = online (F45, C08:restart-status-differs-from-online); producer set after a BPCOUNT change (F34, C08:bp-snapshot-bpcount-from-memory); LIB on main chain after an abandoned reorg (F39, C08:lib-off-main-chain-after-failed-reorg). Tie every run: engines on the real dpos.Status, NewStatus+bp.Snapshots+GetRankers and ChainService (recording, persisting stub); every step's outcome, LIB, proposals, confirms list, main chain, producer set, call sequence, saved status hashed and compared with the model by vm_compute; each clause also a direct predicate on the implementation; multi-node disagreement search.",
     "note": "Trusted: Coq kernel + vm_compute (no axioms); 60-bit shift-add observation hash; scenario generators; the dpos engine's mirror of ChainService.addBlock/reorg around Status (its call order, incl. the execution-failure and IsBlockValid-refusal sequences, is compared with the real ChainService by the chain engine on every run; block execution and orphans are C05/C07's). Emulated from the source, not executed: the marker recovery sequence after a crash inside a reorg; the life cycle of the in-memory BPCOUNT (InitSystemParams at start, after reorg.rollback and at the end of a reorg; CommitParams after AddSnapshot) - no transaction is executed. Modelled only, no engine: blockfactory's Confirms = no - LpbNo (Protocol.v). gob round trip goes through the real Save/bootLoader. Theorem assumptions: block ids >= 0, delivered blocks are not the genesis block, 0 < n < 21845 for the confirmation counting, f < n/3 for quorum intersection. agreement_under_lock is proved for an abstract rule and does not transfer to the implementation (Dpos/AgreementLock.v, AgreementObstacles.v).",
     "technique": "Coq invariant proofs over executable Gallina models + vm_compute correspondence against the real dpos.Status, "
                  "bp.Snapshots/Cluster, system.GetRankers and chain.ChainService + multi-node disagreement search",
@@ -92,6 +92,8 @@ def node_cases(sc, obs):
             lst.append("OpG [%s] %s" % (";".join(Z(x) for x in op[2]), Z(obs_hash(CODE_G, o))))
         elif op[0] == "F":
             lst.append("OpF %s %s %s" % (Z(op[2]), Z(obs_hash(CODE_R, o)), Z(o["need_reorg"])))
+        elif op[0] == "FR":
+            lst.append("OpFR %s %s" % (Z(op[2]), Z(obs_hash(CODE_R, o))))
     out = []
     for nd in sorted(per):
         selfs = sc.get("self") or []
@@ -107,6 +109,7 @@ def direct_predicates(sc, obs, stats):
     n = sc["n"]
     blocks = {0: {"id": 0, "parent": None, "no": 0, "bp": -1, "conf": 0}}
     prev = {}       # node -> last online observation
+    irrev = {}      # node -> (LIB height, main chain up to it) that survived a real ForceReset at or above the LIB
     j = 0
     need = 0 if sc.get("election") else 2 * n // 3 + 1
     for k, op in enumerate(sc["ops"]):
@@ -124,9 +127,25 @@ def direct_predicates(sc, obs, stats):
         if op[0] == "G":
             prev[nd] = o
             continue
-        if op[0] == "F":
+        if op[0] in ("F", "FR"):
             rh = op[2]
             stats["force_resets"] = stats.get("force_resets", 0) + 1
+            # ForceResetHeight at or above the LIB height: the LIB block survives the chain reset, so it
+            # stays the LIB and no fork point below it may be reorganised
+            if p is not None and rh >= p["state"]["lib_no"] and rh > 0:
+                ps = p["state"]
+                stats["force_resets_at_or_above_lib"] = stats.get("force_resets_at_or_above_lib", 0) + 1
+                if (st["lib_no"], st["lib"]) != (ps["lib_no"], ps["lib"]) or o.get("allow_below", 0) > 0:
+                    fails.append(("C08:reorg-below-irreversible-allowed-after-restart",
+                                  "restart with ForceResetHeight %d >= LIB %d: the restored LIB is (%d, id %d) instead of (%d, id %d) and "
+                                  "NeedReorganization allows %d of the %d fork points below the block that was irreversible"
+                                  % (rh, ps["lib_no"], st["lib_no"], st["lib"], ps["lib_no"], ps["lib"], o.get("allow_below", 0), ps["lib_no"]),
+                                  {"op_index": k, "reset_height": rh, "lib_before": [ps["lib_no"], ps["lib"]],
+                                   "lib_after": [st["lib_no"], st["lib"]], "allowed_fork_points_below": o.get("allow_below", 0)}))
+                if op[0] == "FR":
+                    irrev[nd] = (ps["lib_no"], list(p["main"][:ps["lib_no"] + 1]))
+            elif op[0] == "FR":
+                irrev.pop(nd, None)      # reset below the LIB: the operator gives the finality up
             if rh > 0:
                 if st["lib_no"] > rh:
                     fails.append(("C08:force-reset-lib-above-height", "LIB %d above ForceResetHeight %d after the reset" % (st["lib_no"], rh),
@@ -135,6 +154,8 @@ def direct_predicates(sc, obs, stats):
                     if e["plib_no"] > rh or e["by_no"] > rh:
                         fails.append(("C08:force-reset-proposal-above-height",
                                       "proposal (%d by %d) above ForceResetHeight %d kept" % (e["plib_no"], e["by_no"], rh), {"op_index": k}))
+            if op[0] == "FR":
+                prev[nd] = o
             continue
         if op[0] in ("S", "R"):
             stats["restarts"] += 1
@@ -173,6 +194,17 @@ def direct_predicates(sc, obs, stats):
             pmain, plib_no, pst = [0], 0, None
         else:
             pmain, plib_no, pst = p["main"], p["state"]["lib_no"], p["state"]
+        # what was irreversible before a restart with ForceResetHeight >= LIB stays on the main chain
+        if nd in irrev:
+            ino, imain = irrev[nd]
+            for h in range(0, ino + 1):
+                if h >= len(o["main"]) or o["main"][h] != imain[h]:
+                    fails.append(("C08:reorg-below-irreversible-allowed-after-restart",
+                                  "after a restart with ForceResetHeight >= LIB %d a branch forking below the irreversible block "
+                                  "displaced the main chain: block at height %d replaced (%s)" % (ino, h, o["res"]),
+                                  {"op_index": k, "before": imain, "after": o["main"]}))
+                    irrev.pop(nd)
+                    break
         # LIB never decreases
         if st["lib_no"] < plib_no:
             fails.append(("C08:lib-decreased", "reported LIB height decreased %d -> %d" % (plib_no, st["lib_no"]),
